@@ -206,6 +206,23 @@ fn skip_container_loop(
     None
 }
 
+/// Verification hook: the per-block step of the bitmap container skipper and its escape mask, callable by a
+/// conformance harness (compiled only with `--cfg sonic_rs_verif`).
+#[cfg(sonic_rs_verif)]
+pub mod verif_skip {
+    /// state carried between blocks: (prev_instring, prev_escaped, lbrace_num, rbrace_num)
+    pub type State = (u64, u64, usize, usize);
+
+    pub fn skip_block(input: &[u8; 64], st: &mut State, left: u8, right: u8) -> Option<u8> {
+        super::skip_container_loop(input, &mut st.0, &mut st.1, &mut st.2, &mut st.3, left, right)
+            .map(|c| c.get())
+    }
+
+    pub fn escaped_mask(prev_escaped: &mut u64, backslash: u64) -> u64 {
+        super::get_escaped_branchless_u64(prev_escaped, backslash)
+    }
+}
+
 pub(crate) struct Pair<'de> {
     pub key: Cow<'de, str>,
     pub val: &'de [u8],
